@@ -1200,9 +1200,8 @@ Section PyTeq.
       apply IHa; [apply G_list; exact Ga | apply G_list; exact Gb | exact E].
     - destruct b; simpl in E; try discriminate E. unfold teq. rewrite !nmem_dict. apply leq_single. apply meq_dict'.
       apply IHa; [apply G_dict; exact Ga | apply G_dict; exact Gb | exact E].
-    - destruct b; try (simpl in E; discriminate E). rewrite py_eq_union in E.
-      apply andb_true_iff in E. destruct E as [E E3]. apply andb_true_iff in E. destruct E as [_ E2].
-      rewrite forallb_forall in E2, E3. rewrite Forall_forall in H.
+    - destruct b; try (simpl in E; discriminate E). apply py_eq_union_imp in E.
+      destruct E as [_ [E2 E3]]. rewrite Forall_forall in H.
       eapply leq_trans; [apply seteq_leq, nmem_union; exact Ga|].
       eapply leq_trans; [|apply leq_sym, seteq_leq, nmem_union; exact Gb].
       assert (K : forall x y, In x ts -> In y ts0 -> py_eq x y = true -> meq x y).
@@ -1211,9 +1210,9 @@ Section PyTeq.
         pose proof (H x Hx y Gx Gy Exy) as T. unfold teq in T.
         rewrite (nmem_member x Gx Ux Lx), (nmem_member y Gy Uy Ly) in T. apply leq_single. exact T. }
       split.
-      + intros x Hx. specialize (E2 x Hx). apply existsb_exists in E2. destruct E2 as [y [Hy Exy]].
+      + intros x Hx. destruct (E2 x Hx) as [y [Hy Exy]].
         exists y. split; [exact Hy | apply K; assumption].
-      + intros y Hy. specialize (E3 y Hy). apply existsb_exists in E3. destruct E3 as [x [Hx Exy]].
+      + intros y Hy. destruct (E3 y Hy) as [x [Hx Exy]].
         exists x. split; [exact Hx | apply meq_sym; apply K; assumption].
     - destruct b; try (simpl in E; discriminate E). rewrite py_eq_obj in E.
       apply andb_true_iff in E. destruct E as [E1 E2]. apply Nat.eqb_eq in E1. rewrite forallb_forall in E2.
